@@ -232,22 +232,24 @@ pub fn c18(a: &Args) {
         ("mode7", Box::<mode7::CharConverter>::default()),
     ];
     for (name, c) in &convs {
-        for page in 0..4usize {
+        // the converters take a whole cell: every font page a caret can carry x the colour classes an emulation leaves in a cell
+        // (default, inverse video as ATASCII / Viewdata write it, bright on colour)
+        for (page, fg, bg) in [(0usize, 7u32, 0u32), (1, 7, 0), (2, 7, 0), (3, 7, 0), (0, 0, 7), (0, 15, 1), (1, 0, 7), (0, 7, 7)] {
         for code in 0..256u32 {
-            let r = guard(|| { let mut attr = TextAttribute::default(); attr.set_font_page(page); let u = c.convert_to_unicode(AttributedChar::new(char::from_u32(code).unwrap(), attr)); let back = c.convert_from_unicode(u, page); (u as u32, back as u32) });
+            let r = guard(|| { let mut attr = TextAttribute::new(fg, bg); attr.set_font_page(page); let u = c.convert_to_unicode(AttributedChar::new(char::from_u32(code).unwrap(), attr)); let back = c.convert_from_unicode(u, page); (u as u32, back as u32) });
             match r {
-                Ok((u, back)) => out.ev(&json!({"ev":"cp","conv":name,"page":page,"code":code,"uni":u,"back":back})),
-                Err(p) => out.ev(&json!({"ev":"cp","conv":name,"page":page,"code":code,"uni":-1,"back":-1,"site":panic_site(&p)})),
+                Ok((u, back)) => out.ev(&json!({"ev":"cp","conv":name,"page":page,"fg":fg,"bg":bg,"code":code,"uni":u,"back":back})),
+                Err(p) => out.ev(&json!({"ev":"cp","conv":name,"page":page,"fg":fg,"bg":bg,"code":code,"uni":-1,"back":-1,"site":panic_site(&p)})),
             }
         }
         }
         // every font page a caret can carry (the converters take the page as a parameter; the cell typed carries the same page)
-        for page in 0..4usize {
+        for (page, fg, bg) in [(0usize, 7u32, 0u32), (1, 7, 0), (2, 7, 0), (3, 7, 0), (0, 0, 7), (0, 15, 1), (1, 0, 7), (0, 7, 7)] {
         for t in "ABCDEFGHIJKLMNOPQRSTUVWXYZabcdefghijklmnopqrstuvwxyz0123456789 ".chars() {
-            let r = guard(|| { let code = c.convert_from_unicode(t, page); let mut attr = TextAttribute::default(); attr.set_font_page(page); let back = c.convert_to_unicode(AttributedChar::new(code, attr)); (code as u32, back as u32) });
+            let r = guard(|| { let code = c.convert_from_unicode(t, page); let mut attr = TextAttribute::new(fg, bg); attr.set_font_page(page); let back = c.convert_to_unicode(AttributedChar::new(code, attr)); (code as u32, back as u32) });
             match r {
-                Ok((code, back)) => out.ev(&json!({"ev":"typed","conv":name,"page":page,"ch":t as u32,"code":code,"back":back})),
-                Err(p) => out.ev(&json!({"ev":"typed","conv":name,"page":page,"ch":t as u32,"code":-1,"back":-1,"site":panic_site(&p)})),
+                Ok((code, back)) => out.ev(&json!({"ev":"typed","conv":name,"page":page,"fg":fg,"bg":bg,"ch":t as u32,"code":code,"back":back})),
+                Err(p) => out.ev(&json!({"ev":"typed","conv":name,"page":page,"fg":fg,"bg":bg,"ch":t as u32,"code":-1,"back":-1,"site":panic_site(&p)})),
             }
         }
         }
@@ -295,6 +297,26 @@ pub fn c19(a: &Args) {
     for s in st32 {
         let row: Vec<Value> = (0..=255u8).map(|b| hi_lo(update_crc32(s, b))).collect();
         emit(json!({"ev":"row32","s":hi_lo(s),"r":row}), &mut outs);
+    }
+    // callers of the incremental API (model layer: C19 speaks about the routines, not about who calls them): a font's checksum is
+    // its glyph bytes fed through update_crc32 from 0, however often it is recomputed and whatever was edited in between
+    {
+        use icy_engine::BitFont;
+        let mut r = rng(seed, 9);
+        let fold = |f: &BitFont| f.convert_to_u8_data().iter().fold(0u32, |c, b| update_crc32(c, *b));
+        for k in 0..6 {
+            let mut f = match k { 0 => BitFont::default(), 1 => BitFont::from_ansi_font_page(5).unwrap_or_default(), _ => BitFont::create_8("user", 8, [8u8, 14, 16, 19][k % 4], &(0..256 * [8usize, 14, 16, 19][k % 4]).map(|_| r.gen()).collect::<Vec<u8>>()) };
+            let first = f.get_checksum() == fold(&f);
+            f.calculate_checksum();
+            let again = f.get_checksum() == fold(&f);
+            if let Some(g) = f.get_glyph_mut('A') { g.data[0] ^= 0x81; }
+            f.calculate_checksum();
+            let edited = f.get_checksum() == fold(&f);
+            if let Some(g) = f.get_glyph_mut('A') { g.data[0] ^= 0x81; }
+            f.calculate_checksum();
+            let restored = f.get_checksum() == fold(&f);
+            emit(json!({"ev":"user","who":"font-checksum","k":k,"first":first,"again":again,"edited":edited,"restored":restored}), &mut outs);
+        }
     }
     // strings: one-shot vs incremental vs bitwise (TLC)
     let mut r = rng(seed, 3);
